@@ -60,7 +60,7 @@ CONSTANTS Budget,      \* max number of deviations from the plain layout
           Units,       \* subset of {"s4","s2","s1","t1","t2"}
           CtxKinds,    \* subset of {"class","func","loop","with","try"}
           DecoKinds,   \* subset of {"id","call","wrap"}
-          StrKinds,    \* subset of {"plain","raw","bytes","f","rb"}
+          StrKinds,    \* subset of {"plain","raw","bytes","f","rb","rf"}
           Quotes       \* subset of {"q3","q1"}
 
 VARIABLES phase, unit, ctx, lines, mode, lvl, need, cost, nb, logical, strs, cur
@@ -90,15 +90,20 @@ FlexDed(a, level) == CASE a = "in" -> Ind(level - Base) [] a = "zero" -> ""
                        [] a = "alt" -> Rep(AltUnit, level)
 
 Pfx(sk) == CASE sk = "plain" -> "" [] sk = "raw" -> "r" [] sk = "bytes" -> "b" [] sk = "f" -> "f" [] sk = "rb" -> "rb"
+             [] sk = "rf" -> "rf"
 Q(q)    == IF q = "q3" THEN "'''" ELSE "'"
-IsRaw(sk) == sk \in {"raw", "rb"}
+IsRaw(sk) == sk \in {"raw", "rb", "rf"}
+IsF(sk)   == sk \in {"f", "rf"}
 (* what the end of a physical line inside a string literal contributes to the value *)
 (* ("bsws": a backslash followed by a blank before the line end - not a continuation anywhere; only written *)
 (*  in comments and raw strings, elsewhere it would be an invalid escape sequence)                         *)
+(* "bs2": TWO backslashes before the line end: an escaped backslash (one backslash of content, two in a raw   *)
+(*  literal) followed by a newline that IS content - the physical line ends in a backslash all the same     *)
 EOL(sk, b) == CASE b = "bs"   -> (IF IsRaw(sk) THEN BS \o "\n" ELSE "")
                 [] b = "bsws" -> BS \o " \n"
+                [] b = "bs2"  -> (IF IsRaw(sk) THEN BS \o BS \o "\n" ELSE BS \o "\n")
                 [] OTHER      -> "\n"
-LineEnd(b) == CASE b = "bs" -> BS [] b = "bsws" -> BS \o " " [] OTHER -> ""
+LineEnd(b) == CASE b = "bs" -> BS [] b = "bsws" -> BS \o " " [] b = "bs2" -> BS \o BS [] OTHER -> ""
 
 Line(k, a, b, c, d, l, ws, dws, rest) ==
   [k |-> k, a |-> a, b |-> b, c |-> c, d |-> d, l |-> l, txt |-> ws \o rest, ded |-> dws \o rest]
@@ -220,8 +225,9 @@ AddStrOpen(l, sk, q, c, d) ==
   /\ InBody /\ AtStmt /\ l \in StmtLevels /\ nb + 1 < MaxBody
   /\ (q = "q1" => c = "bs")                       \* a single-quoted literal continues only by backslash-newline
   /\ (c = "bsws" => IsRaw(sk))
+  /\ (c = "bs2" => q = "q3")
   /\ Pay(1 + B2N(sk # "plain") + B2N(q = "q1") + B2N(c # "" /\ q = "q3") + B2N(d = "expr"))
-  /\ LET first == "t" \o N \o (IF sk = "f" THEN "{a}" ELSE "")
+  /\ LET first == "t" \o N \o (IF IsF(sk) THEN "{a}" ELSE "")
      IN /\ Put(Line("stropen", sk, q, c, d, l, Ind(BodyLvl(l)), Ind(1 + l),
                     (IF d = "asg" THEN "v" \o N \o " = " ELSE "") \o Pfx(sk) \o Q(q) \o first
                       \o LineEnd(c)))
@@ -233,6 +239,7 @@ AddStrMid(a, b) ==
   /\ InBody /\ mode.m = "str" /\ nb + 1 < MaxBody
   /\ (mode.q = "q1" => b = "bs")
   /\ (b = "bsws" => IsRaw(mode.sk))
+  /\ (b = "bs2" => mode.q = "q3")
   /\ Pay(B2N(a # "in") + B2N(b # "" /\ mode.q = "q3"))     \* a plain interior line only costs a line
   /\ LET ws == Flex(a, BodyLvl(lvl))
          rest == "m" \o N \o LineEnd(b)
@@ -261,9 +268,9 @@ Next == \/ \E k \in CtxKinds : AddCtx(k)
         \/ \E a \in SigInd : AddSigMid(a) \/ AddSigBsEnd(a) \/ AddDecoArg(a)
         \/ \E l \in 0 .. 1 : AddCode(l) \/ AddCodeBs(l)
         \/ AddOpen
-        \/ \E a \in FlexAll, b \in {"", "bs", "bsws"} : AddComment(a, b) \/ AddCont(a, b) \/ AddStrMid(a, b)
+        \/ \E a \in FlexAll, b \in {"", "bs", "bsws", "bs2"} : AddComment(a, b) \/ AddCont(a, b) \/ AddStrMid(a, b)
         \/ \E a \in {"empty", "ws"} : AddBlank(a)
-        \/ \E l \in 0 .. 1, sk \in StrKinds, q \in Quotes, c \in {"", "bs", "bsws"}, d \in {"asg", "expr"} :
+        \/ \E l \in 0 .. 1, sk \in StrKinds, q \in Quotes, c \in {"", "bs", "bsws", "bs2"}, d \in {"asg", "expr"} :
                AddStrOpen(l, sk, q, c, d)
         \/ \E a \in {"in", "zero"} : AddStrClose(a)
         \/ Finish
